@@ -56,6 +56,15 @@ func c16CLI(e *Env) {
 			judge(fmt.Sprintf("schema diff --format %q", f), o, "TBLA", "TBLC")
 			o = runAtlas(e, dir, nil, "schema", "diff", "--from", bound(devSchema, "1"), "--to", bound(markerSchema, "2"), "--format", f)
 			judge(fmt.Sprintf("schema diff (differently named schemas) --format %q", f), o, "TBLA", "TBLC")
+			// the same with a dev connection that is bound to the realm (it is the one that plans the changes) or to
+			// a third, differently named schema
+			for _, dev := range []string{fmt.Sprintf("%s://fixture/?variant=1", sc), bound("third_sch_5c1d", "1")} {
+				o = runAtlas(e, dir, nil, "schema", "diff", "--from", bound(devSchema, "1"), "--to", bound(markerSchema, "2"), "--dev-url", dev, "--format", f)
+				judge(fmt.Sprintf("schema diff (differently named schemas, --dev-url %s) --format %q", dev, f), o, "TBLA", "TBLC")
+				if o.Code == 0 && strings.Contains(o.Stdout, "third_sch_5c1d") {
+					e.Res.Violate("failing-input", "schema-name-leaks", fmt.Sprintf("%s: `schema diff` of two schema-bound connections mentions the dev schema: %s", sc, trunc(o.Stdout, 300)), "Props.C16.no_own_schema (CLI)", map[string]any{"case": sc + " dev-url"})
+				}
+			}
 			if fi == 0 {
 				o = runAtlas(e, dir, nil, "schema", "diff", "--from", bound(markerSchema, "1"), "--to", bound(markerSchema, "2"))
 				judge("schema diff (default output)", o, "TBLA", "TBLC")
